@@ -40,7 +40,11 @@ RULE = ('(a) BFS over histories of ops {connect, status, disconnect, '
         'request in flight}; judged additionally on real-time order: a '
         'disconnect called after every accepted start returned must leave '
         'nothing alive, an accepted connect called after every disconnect '
-        'returned must yield a live play connection.  states = '
+        'returned must yield a live play connection; further start states '
+        '{status() in flight, login / compression switch in flight, in play '
+        'with a reconnecting exception handler, in play after a negotiated '
+        'connect} with user disconnect(); connect() racing the networking '
+        'thread and the server closing / kicking / sending garbage.  states = '
         'distinct canonical states (BFS) + distinct hashed scheduler states; '
         'transitions = ops applied + scheduling points; traces = histories '
         'and schedules executed on the real code.')
@@ -557,6 +561,7 @@ NEGOTIATING = 'negotiating'
 ENCRYPTING = 'encrypting'      # connect() issued, server will ask for encryption
 STATUSING = 'statusing'        # status() issued, reply not yet processed
 PLAY_MULTI = 'play_multi'      # in play, every connect() negotiates the version
+PLAY_HR = 'play_hr'            # in play; the exception handler reconnects
 LOGGING_IN = 'logging_in'      # connect() issued, login success not yet processed
 COMPRESSING = 'compressing'    # connect() issued, server will set compression
 PROGS = {
@@ -619,10 +624,27 @@ def sched_body(W, start, prog):
     W.net.endpoints = Ep()
     conn = W.connection(allowed_versions={V, 340}
                         if start in (NEGOTIATING, PLAY_MULTI) else {V},
-                        handle_exception=lambda e, i: errs.append(
-                            type(e).__name__),
+                        handle_exception=lambda e, i: on_error(e),
                         handle_exit=lambda: exits.append(1))
     from minecraft.networking.packets import clientbound
+
+    def on_error(e):
+        errs.append(type(e).__name__)
+        # from PLAY_HR the final exception handler reconnects (once) when the
+        # conversation failed - from the dying networking thread, while user
+        # threads call in
+        if start == PLAY_HR and type(e).__name__ in RECONNECT_ON and \
+                'H0:connect' not in results:
+            # (logged like a user call: it is one, made by user code)
+            S.event('call', 'H0:connect')
+            try:
+                conn.connect()
+                results['H0:connect'] = 'ok'
+            except InvalidState:
+                results['H0:connect'] = 'invalid'
+            except ConnectionRefusedError:
+                results['H0:connect'] = 'refused'
+            S.event('ret', 'H0:connect', results['H0:connect'])
 
     def on_ka(p):
         if p.keep_alive_id == 99:
@@ -633,7 +655,7 @@ def sched_body(W, start, prog):
             except InvalidState:
                 results['listener:reconnect'] = 'invalid'
     conn.register_packet_listener(on_ka, clientbound.play.KeepAlivePacket)
-    if start in ('play', 'disconnected', PLAY_MULTI):
+    if start in ('play', 'disconnected', PLAY_MULTI, PLAY_HR):
         conn.connect()
         W.settle()
         if start == 'disconnected':
@@ -870,7 +892,14 @@ for _p in ('close||disc,connect', 'garbage||disc,connect',
            'kick||disc,connect'):
     QUICK_B[(PLAY_MULTI, _p)] = 1
 QUICK_B[('play', 'close||disc,connect')] = 1
+PROGS['garbage||disc'] = ([('srv_garbage',), ('disc',)], [])
+PROGS['garbage||disc||connect'] = ([('srv_garbage',), ('disc',)],
+                                   [('connect',)])
+for _p in ('garbage||disc', 'garbage||connect', 'garbage||disc,connect',
+           'garbage||disc||connect'):
+    QUICK_B[(PLAY_HR, _p)] = 1
 THOROUGH_ONLY = {(ENCRYPTING, 'disc,connect'),      # (COMPRESSING covers it)
+                 (PLAY_HR, 'garbage||disc'), (PLAY_HR, 'garbage||disc,connect'),
                  (PLAY_MULTI, 'close||disc,connect'),
                  (PLAY_MULTI, 'garbage||disc,connect'),
                  ('play', 'garbage||disc,connect')}
